@@ -67,6 +67,7 @@ WHAT = {
     'RC4b': "nested Orswot/Map values validate an op's dot against their own clock, which only sees dots routed to that key: Map::validate_op returns Value(SourceOrder..) for an in-order op on a second key",
     'RC5': "Orswot::validate_merge reports DoubleSpentDot for the library's own add_all (one dot legitimately witnesses several members)",
     'RC6': "states holding a pending (deferred) remove cannot be serialised with serde_json: the deferred table is a map keyed by a VClock ('key must be a string')",
+    'RC9': "Map::validate_merge descends into the nested values of a common key only when the two entry clocks are concurrent; when one actor id was used at two replicas the entry clocks are typically equal or ordered, so a dot that witnesses different nested members on the two sides is not flagged (the merge then silently drops both)",
     'RC7': "under per-actor-FIFO but non-causal delivery a key remove that deletes an entry also deletes what an overtaken update still needed (pending nested removes stored inside the entry, or the fact that a register write had been superseded); the view is stale until the missing op arrives",
 }
 
@@ -77,6 +78,8 @@ def attribute(prop, u):
         return 'RC6'
     if kind == 'false-reject-nested':
         return 'RC4b'
+    if kind == 'missed-double-spend-nested-under-comparable-entry-clocks':
+        return 'RC9'
     if prop == 'C17' and system == 'orswot' and kind == 'false-merge-reject' and any(o['k'] == 1 for o in ops):
         return 'RC5'
     if system == 'map_mvreg':
@@ -98,7 +101,7 @@ def attribute(prop, u):
                 return 'RC3'
     return None
 
-SITE = {('RC6', 'ser-error-pending'), ('RC4b', 'false-reject-nested'), ('RC1', 'state-neq-hidden'), ('RC1', 'dup-changes-hidden-state'), ('RC1', 'stale-merge-changes-hidden-state')}
+SITE = {('RC9', 'missed-double-spend-nested-under-comparable-entry-clocks'), ('RC6', 'ser-error-pending'), ('RC4b', 'false-reject-nested'), ('RC1', 'state-neq-hidden'), ('RC1', 'dup-changes-hidden-state'), ('RC1', 'stale-merge-changes-hidden-state')}
 
 def main():
     findings = collections.OrderedDict()
